@@ -1,6 +1,6 @@
 (* C12 — the cipher suite used is the caller's first supported preference, never another. *)
 From BMC Require Import Base Prim Layers Layers2 Serialize Packet Conn Hmac Handshake HandshakeProofs.
-From BMCProps Require Import TieCrypto.
+From BMCProps Require Import TieSuites.
 
 (* one preference: proposed as is, without discovery *)
 Theorem C12_single : forall x a, determine [x] a = Chosen x false.
